@@ -417,3 +417,56 @@ macro_rules! c01_k5 {
 }
 c01_k5!(c01_k5_process_commits_hands_over_set, true);
 c01_k5!(c01_k5_process_commits_hands_over_removal, false);
+
+// =====================================================================================
+// C08.A4: DbInner::commit_changes on a multitree column — a transaction that is refused by a LATER operation must not
+// keep what an EARLIER InsertTree / DereferenceTree of the same transaction already took: node slots claimed from the
+// value tables (HashColumn::claim_tree_values by contract: "claims storage", counted) and the queued-dereference counter
+// of the tree registry. Real code: the operation loop of commit_changes and its error exits.
+// =====================================================================================
+pub static mut A4_CLAIMS: usize = 0;
+/// The root lookup of a DereferenceTree is not part of the harness's transaction, but the operation kind is not a constant
+/// for symbolic execution after the move through `IntoIterator`, so every arm of the match is explored: without this
+/// contract ("no such root") the whole read path (index search, value chains) is unrolled — 20 min, 14 GB, no verdict.
+pub static mut A4_RAW: usize = 0;
+/// commit_raw is decided by C08.A2; here it only must not be reached by a refused transaction
+pub fn stub_commit_raw(_db: &DbInner, commit: CommitChangeSet) -> Result<()> { unsafe { A4_RAW += 1; } std::mem::forget(commit); Ok(()) }
+pub fn stub_db_get(_db: &DbInner, _col: ColId, _key: &[u8], _external: bool) -> Result<Option<Value>> { Ok(None) }
+/// key hashing is not the subject (C01.K1 decides hash_key): one byte of the key is enough to tell the harness keys apart
+pub fn stub_hash_key(key: &[u8], _salt: &crate::column::Salt, _uniform: bool, _db_version: u32) -> Key { let mut k = [0u8; 32]; if key.len() > 0 { k[0] = key[0]; k[9] = key[0]; } k }
+pub fn stub_claim_tree_values(_c: &crate::column::HashColumn, change: &Operation<Value, Value>) -> Result<(Vec<u8>, Vec<NodeChange>)> {
+	assert!(matches!(change, Operation::InsertTree(..)), "harness: only insertions claim");
+	unsafe { A4_CLAIMS += 1; }
+	let mut root = Vec::with_capacity(2);
+	root.push(7u8); root.push(0u8);
+	Ok((root, Vec::new()))
+}
+
+crate::verif_env! {
+#[kani::proof]
+#[kani::unwind(3)]
+#[kani::stub(crate::column::HashColumn::claim_tree_values, stub_claim_tree_values)]
+#[kani::stub(crate::column::hash_key, stub_hash_key)]
+#[kani::stub(crate::db::DbInner::get, stub_db_get)]
+#[kani::stub(crate::db::DbInner::commit_raw, stub_commit_raw)]
+#[kani::stub(<std::os::fd::OwnedFd as std::ops::Drop>::drop, crate::verif_common::fd_drop_noop)]
+fn c08_a4_refused_transaction_keeps_no_claim() {
+	let mut o = opts(1);
+	o.columns[0].multitree = true;
+	o.columns[0].append_only = kani::any();
+	let mut dbi = mk_db(o, 1, false);
+	dbi.columns.push(crate::column::verif_kani::mini_plain_column(false));
+	unsafe { A4_CLAIMS = 0; A4_RAW = 0; }
+	// second operation: a plain Set, which is not valid on a multitree column. Keys and payloads are empty vectors (no heap
+	// objects: with one-byte vectors and a symbolic choice of the second operation the run needed > 20 min / 14 GB for the
+	// drop glue of the refused transaction)
+	let second: Operation<Vec<u8>, Vec<u8>> = Operation::Set(Vec::new(), Vec::new());
+	let first: Operation<Vec<u8>, Vec<u8>> = Operation::InsertTree(Vec::new(), crate::multitree::NewNode { data: Vec::new(), children: Vec::new() });
+	let r = dbi.commit_changes([(0u8, first), (0u8, second)]);
+	assert!(r.is_err(), "C08.A4r an operation that is not valid for its column refuses the transaction");
+	assert!(unsafe { A4_CLAIMS } == 0, "C08.A4 a refused transaction holds no claimed node slot");
+	assert!(unsafe { A4_RAW } == 0, "C08.A4q a refused transaction is not handed to commit_raw");
+	kani::cover!(r.is_err());
+	std::mem::forget(r); std::mem::forget(dbi);
+}
+}
